@@ -2,7 +2,7 @@
    bool, option, list, prod, unit, sumbool map to OCaml's; nat, positive, Z, N stay
    the extracted inductives).  Compiled from build/model, not part of the proof build. *)
 From Coq Require Import ExtrOcamlBasic List ZArith.
-From OmplV Require Import HeapModel MotionModel PtcModel SeedModel SolModel GridModel NNModel CodecModel VssModel LedgerModel PisModel PathModel ControlModel PhsModel GnatModel CopyModel EitModel GnatFullModel RrtModel RrtConnectModel LazyRrtModel.
+From OmplV Require Import HeapModel MotionModel PtcModel SeedModel SolModel GridModel NNModel CodecModel VssModel LedgerModel PisModel PathModel ControlModel PhsModel GnatModel CopyModel EitModel GnatFullModel RrtModel RrtConnectModel LazyRrtModel LpaModel.
 Extraction Language OCaml.
 Extraction "model.ml" HeapModel.step HeapModel.run HeapModel.pop_all_e HeapModel.sort_keys HeapModel.find_pos
   MotionModel.check_lin MotionModel.check_bis MotionModel.check_bis_nocount MotionModel.check_states MotionModel.states_lin
@@ -16,7 +16,7 @@ Extraction "model.ml" HeapModel.step HeapModel.run HeapModel.pop_all_e HeapModel
   GnatModel.gnat_nearestK GnatModel.gnat_nearestR
   CopyModel.copy_state_data
   EitModel.call_tests EitModel.call_performed EitModel.call_whitelists EitModel.order
-  RrtModel.rrt_solve RrtModel.rrt_calls RrtModel.rlrt_solve RrtModel.crrt_run RrtModel.crrti_run RrtConnectModel.rc_solve RrtConnectModel.rc_solves RrtConnectModel.c_ts RrtConnectModel.c_tg LazyRrtModel.lazy_solve
+  RrtModel.rrt_solve RrtModel.rrt_calls RrtModel.rlrt_solve RrtModel.crrt_run RrtModel.crrti_run RrtConnectModel.rc_solve RrtConnectModel.rc_solves RrtConnectModel.c_ts RrtConnectModel.c_tg LazyRrtModel.lazy_solve LpaModel.lpa_init LpaModel.op_insert LpaModel.op_remove LpaModel.has_edge LpaModel.shortest_path
   GnatFullModel.gf_add GnatFullModel.gf_add_list GnatFullModel.gf_remove GnatFullModel.gf_clear GnatFullModel.gf_empty
   CodecModel.serialize CodecModel.deserialize CodecModel.wf CodecModel.to_reals CodecModel.from_reals CodecModel.signature CodecModel.ser_len CodecModel.sdim
   CodecModel.store_states CodecModel.load_states CodecModel.store_pd CodecModel.load_pd CodecModel.mark_start CodecModel.mark_goal CodecModel.add_vertex
